@@ -44,7 +44,11 @@ type Program struct {
 	Cloned []string // helpers with several call sites that were cloned per call site (clone.go)
 
 	callers map[*ssa.Function]*callerInfo
-	transp  map[*ssa.Function]bool
+	// virtual result vectors of helper returns that a host return partly forwards (see returnsOf)
+	retOverride map[*ssa.Return][]ssa.Value
+	inOverride  bool
+	retOwner    map[*ssa.Return]*ssa.Return
+	transp      map[*ssa.Function]bool
 
 	useVTA bool
 	cg     *callgraph.Graph
@@ -139,12 +143,14 @@ func loadProgram(dir, goos, goarch string, useVTA bool) (*Program, error) {
 		Dir: dir, GOOS: goos, GOARCH: goarch,
 		Fset: root.Fset, Pkg: root, Types: root.Types, Info: root.TypesInfo, Files: root.Syntax,
 		Prog: prog, SPkg: spkg,
-		Funcs:  map[string]*ssa.Function{},
-		useVTA: useVTA,
-		Cloned: cloned,
-		cells:  map[*ssa.Alloc]*cellInfo{},
-		binds:  map[*ssa.FreeVar]ssa.Value{},
-		transp: map[*ssa.Function]bool{},
+		Funcs:       map[string]*ssa.Function{},
+		useVTA:      useVTA,
+		Cloned:      cloned,
+		cells:       map[*ssa.Alloc]*cellInfo{},
+		binds:       map[*ssa.FreeVar]ssa.Value{},
+		transp:      map[*ssa.Function]bool{},
+		retOverride: map[*ssa.Return][]ssa.Value{},
+		retOwner:    map[*ssa.Return]*ssa.Return{},
 	}
 
 	// collect source functions of the root package: members, methods of named types, and their anonymous functions
